@@ -90,8 +90,8 @@ func paramCells(loc string) []pcell {
 		for _, ex := range explodes {
 			for _, sh := range shapes {
 				for _, rq := range reqs {
-					if st == "" && ex != nil && sh != "string" {
-						continue // defaulted style with explicit explode: one shape is enough
+					if st == "" && ex != nil && sh != "string" && sh != "arr:int" {
+						continue // defaulted style with explicit explode: a primitive and an array
 					}
 					add(pcell{Style: st, Explode: ex, Shape: sh, Required: rq, Kind: "styled"})
 				}
